@@ -1,18 +1,19 @@
 #!/bin/sh
 # runs the quick check of the owning property (or the one named in meta.json "check") against every seeded change, each in its own scratch
 # worktree (tools/try_patch.sh); properties run 4 at a time, the seeds of one property one after the other.  Prints a table.
-cd /verif
+cd "$(dirname "$0")/.." || exit 9
+ROOT="$(pwd)"
 run_prop() {
   for d in seeded/$1_*/; do
     s=$(basename $d); p=${s%_*}
     alt=$(python3 -c "import json;print(json.load(open('$d/meta.json')).get('check','$p'))")
-    out=$(TRY_LINES=1 tools/try_patch.sh /verif/$d/patch.diff $alt 2>&1 | grep -E "exit=" | tail -1)
+    out=$(TRY_LINES=1 tools/try_patch.sh "$ROOT/$d/patch.diff" $alt 2>&1 | grep -E "exit=" | tail -1)
     echo "$s $alt $out"
   done
 }
 for grp in "C02 C03 C04 C17" "C08 C09 C10 C18" "C05 C15 C06 C19"; do
-  for p in $grp; do run_prop $p > /tmp/sweep_$p.log 2>&1 & done
+  for p in $grp; do run_prop $p > /tmp/sweep_$$_$p.log 2>&1 & done
   wait
 done
-cat /tmp/sweep_C*.log; rm -f /tmp/sweep_C*.log
+cat /tmp/sweep_$$_C*.log; rm -f /tmp/sweep_$$_C*.log
 git -C /repo status --short; git -C /repo worktree list | grep -c trypatch
